@@ -1,3 +1,3 @@
 module errfacts
 
-go 1.21
+go 1.22
